@@ -1,4 +1,5 @@
 (* C08 - The ten wordlists are the canonical, well-formed BIP39 lists. *)
+From B39 Require Import Proofs.Calls.
 From B39 Require Import Lib.Base Lib.Sha256 Lib.Utf8 Lib.Nfkd Model.GenTypes Model.Model Gen.Lang.
 From B39 Require Import Spec.Bip39Spec Spec.CanonDigests Facts.CanonDigest Proofs.Tables Proofs.Encode Proofs.Lists.
 
@@ -29,6 +30,11 @@ Theorem C08_ten_languages : length lang_consts = 10%nat /\ length canon_digests 
   forallb (fun c => existsb (fun t => String.eqb (fst t) (fst c)) canon_tables) lang_consts = true /\
   forallb (fun t => existsb (fun c => String.eqb (fst t) (fst c)) lang_consts) canon_tables = true.
 Proof. split; [reflexivity|]. split; [reflexivity|]. exact languages_are_the_ten. Qed.
+
+(* the functions this property is about, and every package function they reach, call only what the model
+   accounts for (closed world of callees, computed on coq/Gen/Calls.v, regenerated from the source every run) *)
+Theorem C08_callees : reach_ok "Language.String" = true /\ reach_ok "Language.list" = true /\ reach_ok "Language.mapping" = true.
+Proof. exact calls_lang. Qed.
 
 Print Assumptions C08_lists.
 Print Assumptions C08_inverse.
